@@ -167,6 +167,20 @@ class UuidGetItem(Contract):
             return Sym(fresh_uuid(z3.IntVal(len(I.events))), ('opaque', 'Uuid'))
         return {uuid.uuid4: u4}
 
+    # call-site use: the map and the seen set are replaced by fresh ones constrained by the postcondition
+    def call_ghosts(self, I, a, frame, site):
+        at = a.self.attrs
+        return {'old': (at['_map'].copy(), at['_seen'].copy())}
+
+    def result_value(self, I, a):
+        return Sym(T.fresh('guid', Uuid), ('opaque', 'Uuid'))
+
+    def effects(self, I, a):
+        m = SymMap.fresh('umap_after', 'str', ('opaque', 'Uuid'))
+        seen = SymMap.fresh('useen_after')
+        seen.is_set = True
+        a.self.attrs['_map'], a.self.attrs['_seen'] = m, seen
+
     def ensures(self, a, r):
         om, oseen = a.old
         m, seen = a.self.attrs['_map'], a.self.attrs['_seen']
@@ -181,6 +195,105 @@ class UuidGetItem(Contract):
                 z3.Select(m.dom, KX) == z3.Select(om.dom, KX), z3.Select(m.val, KX) == z3.Select(om.val, KX),
                 z3.Select(seen.dom, KX) == z3.Select(oseen.dom, KX))),
         }
+
+
+class SetUuid(Contract):
+    """Project.set_uuid: the project's GUID is the persistent map's entry for the project's *full* name (names that
+    differ only in their directory are different projects), created on first use and then kept."""
+    target = 'bfg9000/backends/msbuild/syntax.py::Project.set_uuid'
+    properties = ('C20',)
+
+    def params(self, cx, case):
+        import bfg9000.backends.msbuild.syntax as MS
+        m = SymMap.fresh('umap', 'str', ('opaque', 'Uuid'))
+        seen = SymMap.fresh('useen')
+        seen.is_set = True
+        cx.ghost('old', (m.copy(), seen.copy()))
+        return {'self': Obj(MS.Project, {'uuid': None, 'name': cx.str('name')}),
+                'uuids': Obj(SLN.UuidMap, {'_map': m, '_seen': seen, '_path': 'p'})}
+
+    def opaque_calls(self):
+        return UuidGetItem.opaque_calls(self)
+
+    def ensures(self, a, r):
+        om, oseen = a.old
+        m, seen = a.uuids.attrs['_map'], a.uuids.attrs['_seen']
+        k = MD.sym_str(a.self.attrs['name'])
+        u = a.self.attrs['uuid']
+        if u is None:
+            return {'guid_assigned': z3.BoolVal(False)}
+        uv = MD.lift(u)
+        return {
+            'guid_is_the_entry_of_the_full_project_name': z3.And(z3.Select(m.dom, k), z3.Select(m.val, k) == uv),
+            'name_marked_seen_so_the_guid_is_saved': z3.Select(seen.dom, k),
+            'existing_guid_kept': z3.Implies(z3.Select(om.dom, k), uv == z3.Select(om.val, k)),
+            'other_projects_untouched': z3.Implies(KX != k, z3.And(
+                z3.Select(m.dom, KX) == z3.Select(om.dom, KX), z3.Select(m.val, KX) == z3.Select(om.val, KX))),
+        }
+
+
+class SolutionFile(Bounded):
+    """Real Solution / Project / UuidMap objects over runs that add, keep and remove projects (names that share a base
+    name, names with blanks): the written .sln has one GUID per project, unique, stable while the project exists, and
+    every ProjectDependencies entry names a project of the same solution."""
+    target = 'bfg9000/backends/msbuild/solution.py::Solution.write'
+    properties = ('C20',)
+    reason = 'multi-run history over file output with string formatting: runtime contract only'
+    NAMES = ['util', 'lib/util', 'tools/util', 'a b']
+
+    def native_inputs(self, case, alphabet, maxlen, rng, extra=0):
+        subsets = [list(c) for n in range(1, 4) for c in _it.combinations(self.NAMES, n)]
+        for runs in _it.product(range(len(subsets)), repeat=2):
+            for default in (False, True):
+                yield {'runs': [subsets[i] for i in runs], 'set_default': default}
+
+    def native_check(self, case, raw):
+        import io, os, re as _re, tempfile
+        import bfg9000.backends.msbuild.syntax as MS
+
+        class Env:
+            srcdir = None
+
+            def getvar(self, k, d=None):
+                return d
+        with tempfile.TemporaryDirectory() as tmp:
+            fn = os.path.join(tmp, 'uuids')
+            prev = {}
+            for step, names in enumerate(raw['runs']):
+                um = SLN.UuidMap(fn)
+                sol = SLN.Solution(um)
+                made = []
+                for n in names:
+                    p = MS.Project(Env(), n, dependencies=list(made))     # depends on every earlier project
+                    sol[n] = p
+                    made.append(p)
+                if raw['set_default']:
+                    sol.set_default(names[-1])
+                out = io.StringIO()
+                sol.write(out)
+                um.save()
+                text = out.getvalue()
+                projs = _re.findall(r'^Project\("([^"]*)"\) = "([^"]*)", "([^"]*)", "([^"]*)"$', text, _re.M)
+                guid_of = {name: g for _, name, _, g in projs}
+                if sorted(guid_of) != sorted(names) or len(projs) != len(names):
+                    return self.fail(case, raw, 'every_project_listed_once', step=step, listed=[p[1] for p in projs])
+                if len(set(guid_of.values())) != len(guid_of):
+                    return self.fail(case, raw, 'project_guids_unique', step=step, guids=guid_of)
+                for g in guid_of.values():
+                    if not _re.fullmatch(r'\{[0-9A-F]{8}(-[0-9A-F]{4}){3}-[0-9A-F]{12}\}', g):
+                        return self.fail(case, raw, 'guid_well_formed', step=step, guid=g)
+                for n, g in guid_of.items():
+                    if n in prev and prev[n] != g:
+                        return self.fail(case, raw, 'guid_stable_while_project_exists', step=step, name=n)
+                deps = _re.findall(r'^\t\t(\{[^}]*\}) = (\{[^}]*\})$', text, _re.M)
+                for l, r_ in deps:
+                    if l != r_ or l not in guid_of.values():
+                        return self.fail(case, raw, 'dependency_refers_to_a_project_of_the_solution', step=step, dep=l)
+                want = sum(range(len(names)))
+                if len(deps) != want:
+                    return self.fail(case, raw, 'every_dependency_written', step=step, written=len(deps), expected=want)
+                prev = guid_of
+        return True
 
 
 # ---- bounded stand-ins ----------------------------------------------------------------------------------------
@@ -202,11 +315,30 @@ class WinJoinSplit(Bounded):
             yield {'args': [a, b]}
         for w in ('a\\\\\\\\', 'a b\\\\\\', '\\\\"\\\\', 'x\\\\\\"y z'):
             yield {'args': [w, 'q']}
+        # an argument made of a quoted piece next to verbatim text (jbos of a string and a shell_literal, the shape
+        # of `"out dir"\obj` or `-I"foo bar"`): the pieces must be read as ONE argument
+        for w in words:
+            if not w:
+                continue
+            for lit in ('x', '\\o', '-I'):
+                yield {'args': [w, 'q'], 'after': lit}
+                yield {'args': [w, 'q'], 'before': lit}
 
     def native_check(self, case, raw):
         from specs.crt import crt_args
-        args = raw['args']
-        line = W.join(args)
+        args = list(raw['args'])
+        if raw.get('after') or raw.get('before'):
+            from bfg9000.safe_str import jbos, shell_literal
+            a0 = args[0]
+            if raw.get('after'):
+                first = jbos(a0, shell_literal(raw['after']))
+                args[0] = a0 + raw['after']
+            else:
+                first = jbos(shell_literal(raw['before']), a0)
+                args[0] = raw['before'] + a0
+            line = W.join([first] + args[1:])
+        else:
+            line = W.join(args)
         got = crt_args(line)
         if got != args:
             return self.fail(case, raw, 'crt_reads_joined_line_back', line=line, read=got)
@@ -250,4 +382,4 @@ class UuidRuns(Bounded):
 
 
 def registry():
-    return [QuoteInfo(), UuidGetItem(), WinJoinSplit(), UuidRuns()]
+    return [QuoteInfo(), UuidGetItem(), SetUuid(), WinJoinSplit(), UuidRuns(), SolutionFile()]
